@@ -188,7 +188,7 @@ pub fn long_prefilter_once<const HLEN: usize>(family: u8, mode: u8) {
     kani::cover!(matches!(r, Some(c) if c > 0), "later candidate");
 }
 
-inst!(long_inert_f0_40, [props=C03+C14 tier=quick cfg=x86std t=1800 role=long-needle-route-inert uw=@LONGNEW;find_large_imp.1:10;find_large_imp.3:10;find_large_imp.0:35;find_large_imp.2:35;find_small_imp.2:10;find_small_imp.3:10;find_small_imp.0:35;find_small_imp.1:35;oracle:35], 4,
+inst!(long_inert_f0_40, [props=C03+C14 tier=quick cfg=x86std t=1800 role=long-needle-route-inert uw=@LONGNEW;_imp.:35;oracle:35], 4,
     long_route::<40>(0, 1, true));
 inst!(long_pre_f3_sse2_40, [props=C11+C05+C14 tier=quick cfg=x86std t=1800 role=long-needle-prefilter-fallback uw=@LONGNEW;byte_by_byte:18;One::find_raw.0:6;find_prefilter.0:4;oracle:35], 4,
     long_prefilter_once::<40>(3, 1));
@@ -362,13 +362,13 @@ pub mod subiter {
 
 inst!(fi_step_n0, [props=C08+C14 tier=quick cfg=x86std t=900 role=find-iter-step uw=@RK;@TWNEW;@TWOFF;with_ranker:6;oracle:6], 3, subiter::find_step::<0, 12>(1, 0, 12));
 inst!(fi_step_n1, [props=C08 xprops=C14 tier=quick cfg=x86std t=1500 role=find-iter-step uw=@RK;@TWNEW;@TWOFF;with_ranker:6;oracle:6;@MEMCHR], 3, subiter::find_step::<1, 12>(1, 12, 12));
-inst!(fi_step_n2_rk, [props=C08+C14 xprops=C05 tier=quick cfg=x86std+generic t=1500 role=find-iter-step uw=@RK;@TWNEW;@TWOFF;with_ranker:6;oracle:6;@PP], 3, subiter::find_step::<2, 12>(1, 0, 12));
+inst!(fi_step_n2_rk, [props=C08+C14 xprops=C05 tier=quick cfg=x86std+generic t=1500 role=find-iter-step uw=@RK;@TWNEW;@TWOFF;with_ranker:6;oracle:6;@PP], 3, subiter::find_step::<2, 9>(1, 0, 9));
 inst!(fri_step_n0, [props=C08+C14 tier=quick cfg=x86std t=900 role=rfind-iter-step uw=@RK;@TWNEW;@TWOFF;with_ranker:6;oracle:6], 3, subiter::rfind_step::<0, 12>(0, 12));
-inst!(fri_step_n2_rk, [props=C08 xprops=C05+C14 tier=quick cfg=x86std+generic t=1500 role=rfind-iter-step uw=@RK;@TWNEW;@TWOFF;with_ranker:6;oracle:6], 3, subiter::rfind_step::<2, 12>(0, 12));
+inst!(fri_step_n2_rk, [props=C08 xprops=C05+C14 tier=quick cfg=x86std+generic t=1500 role=rfind-iter-step uw=@RK;@TWNEW;@TWOFF;with_ranker:6;oracle:6], 3, subiter::rfind_step::<2, 9>(0, 9));
 inst!(fi_trav_n0_5, [props=C08 xprops=C14 tier=quick cfg=x86std t=1500 role=find-iter-traversal uw=traverse:10;naive:8;@RK;@TWNEW;@TWOFF;with_ranker:6;oracle:6], 3, subiter::traverse::<0, 5>(false, false));
-inst!(fi_trav_n2_6, [props=C08 xprops=C14 tier=quick cfg=x86std t=1500 role=find-iter-traversal uw=traverse:11;naive:9;@RK;@TWNEW;@TWOFF;with_ranker:6;oracle:6;@PP], 3, subiter::traverse::<2, 6>(false, true));
+inst!(fi_trav_n2_5, [props=C08 xprops=C14 tier=quick cfg=x86std t=1500 role=find-iter-traversal uw=traverse:11;naive:9;@RK;@TWNEW;@TWOFF;with_ranker:6;oracle:6;@PP], 3, subiter::traverse::<2, 5>(false, true));
 inst!(fri_trav_n0_5, [props=C08 xprops=C14 tier=quick cfg=x86std t=1500 role=rfind-iter-traversal uw=traverse:10;naive:8;@RK;@TWNEW;@TWOFF;with_ranker:6;oracle:6], 3, subiter::traverse::<0, 5>(true, true));
-inst!(fri_trav_n2_6, [props=C08 xprops=C14 tier=quick cfg=x86std t=1500 role=rfind-iter-traversal uw=traverse:11;naive:9;@RK;@TWNEW;@TWOFF;with_ranker:6;oracle:6;@PP], 3, subiter::traverse::<2, 6>(true, false));
+inst!(fri_trav_n2_5, [props=C08 xprops=C14 tier=quick cfg=x86std t=1500 role=rfind-iter-traversal uw=traverse:11;naive:9;@RK;@TWNEW;@TWOFF;with_ranker:6;oracle:6;@PP], 3, subiter::traverse::<2, 5>(true, false));
 inst!(fi_trav_n1_7, [props=C08 xprops=C14 tier=thorough cfg=x86std t=3600 role=find-iter-traversal uw=traverse:12;naive:10;@RK;@TWNEW;@TWOFF;with_ranker:6;oracle:6;@MEMCHR], 3, subiter::traverse::<1, 7>(false, false));
 inst!(fi_trav_n3_8, [props=C08 xprops=C14 tier=thorough cfg=x86std t=3600 role=find-iter-traversal uw=traverse:13;naive:11;@RK;@TWNEW;@TWOFF;with_ranker:6;oracle:6;@PP], 3, subiter::traverse::<3, 8>(false, true));
 inst!(fri_trav_n3_8, [props=C08 xprops=C14 tier=thorough cfg=x86std t=3600 role=rfind-iter-traversal uw=traverse:13;naive:11;@RK;@TWNEW;@TWOFF;with_ranker:6;oracle:6;@PP], 3, subiter::traverse::<3, 8>(true, true));
@@ -510,21 +510,21 @@ pub mod purity {
 }
 
 #[cfg(not(vcfg_x86none))]
-inst!(pur_two_fwd_n2, [props=C16 xprops=C14 tier=quick cfg=x86std t=1500 role=two-searches uw=@RK;@TWNEW;@TWOFF;with_ranker:6;oracle:6;@PP;clone:6;from:6], 3, purity::two_searches::<2, 9, 10>(1, false));
+inst!(pur_two_fwd_n2, [props=C16 xprops=C14 tier=quick cfg=x86std t=1500 role=two-searches uw=@RK;@TWNEW;@TWOFF;with_ranker:6;oracle:6;@PP;clone:6;from:6], 3, purity::two_searches::<2, 6, 8>(1, false));
 #[cfg(not(vcfg_x86none))]
-inst!(pur_two_rev_n2, [props=C16 xprops=C14 tier=quick cfg=x86std t=1500 role=two-searches uw=@RK;@TWNEW;@TWOFF;with_ranker:6;oracle:6;@PP;clone:6;from:6], 3, purity::two_searches::<2, 9, 10>(1, true));
+inst!(pur_two_rev_n2, [props=C16 xprops=C14 tier=quick cfg=x86std t=1500 role=two-searches uw=@RK;@TWNEW;@TWOFF;with_ranker:6;oracle:6;@PP;clone:6;from:6], 3, purity::two_searches::<2, 6, 8>(1, true));
 #[cfg(not(vcfg_x86none))]
-inst!(pur_copies_fwd_n2, [props=C16 xprops=C14 tier=quick cfg=x86std t=1500 role=finder-copies uw=@RK;@TWNEW;@TWOFF;with_ranker:6;oracle:6;@PP;clone:6;from:6], 3, purity::copies::<2, 10>(1, false));
+inst!(pur_copies_fwd_n2, [props=C16 xprops=C14 tier=quick cfg=x86std t=1500 role=finder-copies uw=@RK;@TWNEW;@TWOFF;with_ranker:6;oracle:6;@PP;clone:6;from:6], 3, purity::copies::<2, 7>(1, false));
 #[cfg(not(vcfg_x86none))]
-inst!(pur_copies_rev_n2, [props=C16 xprops=C14 tier=quick cfg=x86std t=1500 role=finder-copies uw=@RK;@TWNEW;@TWOFF;with_ranker:6;oracle:6;@PP;clone:6;from:6], 3, purity::copies::<2, 10>(1, true));
+inst!(pur_copies_rev_n2, [props=C16 xprops=C14 tier=quick cfg=x86std t=1500 role=finder-copies uw=@RK;@TWNEW;@TWOFF;with_ranker:6;oracle:6;@PP;clone:6;from:6], 3, purity::copies::<2, 7>(1, true));
 #[cfg(not(vcfg_x86none))]
 inst!(pur_iter_copies_fwd_n0, [props=C16 xprops=C14 tier=quick cfg=x86std t=1500 role=iterator-copies uw=@RK;@TWNEW;@TWOFF;with_ranker:6;oracle:6;@PP;clone:6;from:6], 3, purity::iter_copies::<0, 6>(false));
 #[cfg(not(vcfg_x86none))]
 inst!(pur_iter_copies_rev_n0, [props=C16 xprops=C14 tier=quick cfg=x86std t=1500 role=iterator-copies uw=@RK;@TWNEW;@TWOFF;with_ranker:6;oracle:6;@PP;clone:6;from:6], 3, purity::iter_copies::<0, 6>(true));
 #[cfg(not(vcfg_x86none))]
-inst!(pur_iter_copies_fwd_n2, [props=C16 xprops=C14 tier=quick cfg=x86std t=1500 role=iterator-copies uw=@RK;@TWNEW;@TWOFF;with_ranker:6;oracle:6;@PP;clone:6;from:6], 3, purity::iter_copies::<2, 9>(false));
+inst!(pur_iter_copies_fwd_n2, [props=C16 xprops=C14 tier=quick cfg=x86std t=1500 role=iterator-copies uw=@RK;@TWNEW;@TWOFF;with_ranker:6;oracle:6;@PP;clone:6;from:6], 3, purity::iter_copies::<2, 6>(false));
 #[cfg(not(vcfg_x86none))]
-inst!(pur_iter_copies_rev_n2, [props=C16 xprops=C14 tier=quick cfg=x86std t=1500 role=iterator-copies uw=@RK;@TWNEW;@TWOFF;with_ranker:6;oracle:6;@PP;clone:6;from:6], 3, purity::iter_copies::<2, 9>(true));
+inst!(pur_iter_copies_rev_n2, [props=C16 xprops=C14 tier=quick cfg=x86std t=1500 role=iterator-copies uw=@RK;@TWNEW;@TWOFF;with_ranker:6;oracle:6;@PP;clone:6;from:6], 3, purity::iter_copies::<2, 6>(true));
 
 // ---------------------------------------------------------------------------
 // C14: exactness of the documented packed-pair panic
@@ -648,7 +648,7 @@ inst!(mm_twoway_fwd, [props=C05 tier=quick cfg=x86std t=1500 role=mismatched-nee
 inst!(mm_twoway_rev, [props=C05 tier=quick cfg=x86std t=1500 role=mismatched-needle], 9, mismatch::twoway_other_needle::<3, 5, 6>(true));
 inst!(mm_rk_fwd, [props=C05 tier=quick cfg=x86std t=1500 role=mismatched-needle], 9, mismatch::rabinkarp_other_needle::<3, 6, 6>(false));
 inst!(mm_rk_rev, [props=C05 tier=quick cfg=x86std t=1500 role=mismatched-needle], 9, mismatch::rabinkarp_other_needle::<3, 6, 6>(true));
-inst!(mm_packed_g4, [props=C05 tier=quick cfg=x86std t=1500 role=mismatched-needle], 9, mismatch::packed_other_needle::<3, 12, 14>());
+inst!(mm_packed_g4, [props=C05 tier=quick cfg=x86std t=1500 role=mismatched-needle], 9, mismatch::packed_other_needle::<3, 8, 10>());
 
 // C10: nondeterministic ranker x both prefilter settings
 inst!(rank_n2_sse2, [props=C10+C03 xprops=C14 tier=quick cfg=x86std t=1800 role=nondet-ranker-packed uw=@RK;@TWNEW;@TWOFF;with_ranker:6;oracle:6;@PP], 3,
@@ -658,6 +658,6 @@ inst!(rank_n3_sse2, [props=C10+C03 xprops=C14 tier=thorough cfg=x86std t=1800 ro
 inst!(rank_n4_sse2, [props=C10+C03 xprops=C14 tier=thorough cfg=x86std t=3600 role=nondet-ranker-packed uw=@RK;@TWNEW;@TWOFF;with_ranker:6;oracle:6;@PP], 3,
     finder_nondet_ranker::<4, 22>(1, 0, 22));
 inst!(rank_n2_nosimd_rk, [props=C10+C03 xprops=C14 tier=quick cfg=generic t=1800 role=nondet-ranker-nosimd uw=@RK;@TWNEW;@TWOFF;with_ranker:6;oracle:6;find_prefilter.0:2;@MEMCHR], 3,
-    finder_nondet_ranker::<2, 12>(0, 0, 12));
+    finder_nondet_ranker::<2, 9>(0, 0, 9));
 inst!(rank_n2_nosimd_tw, [props=C10+C03 xprops=C14 tier=thorough cfg=generic t=7200 role=nondet-ranker-nosimd uw=@RK;@TW:2:17;with_ranker:6;oracle:6;find_prefilter.0:19;@MEMCHR], 3,
     finder_nondet_ranker::<2, 17>(0, 16, 17));
